@@ -26,12 +26,16 @@ def assigned_label(bi, path, local, is_input):
 
 
 def listing_bodies(prog):
-    """bodies that paginate: they call both Iterator::skip and Iterator::take"""
+    """bodies that paginate: they ask Paging for the next page of what they return (or use skip + take)"""
     out = []
+    paging = prog.anchors.ty("Paging")
     for b in prog.facts.lib_bodies():
+        if b.impl_self == paging:
+            continue
         bi = prog.info(b.id)
         names = {t.callee.path for bb, t in bi.calls()}
-        if "std::iter::Iterator::skip" in names and "std::iter::Iterator::take" in names:
+        nextp = any((t.callee.local or t.callee.res_local) and t.callee.target.startswith(paging + "::next_page") for bb, t in bi.calls())
+        if nextp or ("std::iter::Iterator::skip" in names and "std::iter::Iterator::take" in names):
             out.append(b.id)
     return out
 
@@ -163,6 +167,85 @@ def pipeline(prog, bid):
     return bi, st, sl
 
 
+def local_chain_to_offset(bi, operand):
+    """names of the calls on the receiver chain from `operand` back to a read of `<page>.offset`, inside this body only"""
+    names = set()
+    seen = set()
+    stack = [operand]
+    while stack:
+        op = stack.pop()
+        if op is None or op.place is None:
+            continue
+        pl = op.place
+        if any(isinstance(p, dict) and p.get("n") == "offset" and p.get("o", "").endswith("Page") for p in pl.proj):
+            continue
+        if pl.local in seen:
+            continue
+        seen.add(pl.local)
+        for (db, di) in bi.defs.get(pl.local, []):
+            if di >= 0:
+                st = bi.stmt(db, di)
+                for o in st.rv.ops:
+                    stack.append(o)
+                if st.rv.place is not None:
+                    from mir import Operand
+                    stack.append(Operand({"c": {"l": st.rv.place.local, "p": st.rv.place.proj}}))
+            else:
+                t = bi.body.blocks[db].term
+                if t.k == "call" and t.callee is not None:
+                    names.add(t.callee.path.split("::")[-1])
+                    if t.args:
+                        stack.append(t.args[0])
+    return names
+
+
+def token_alternatives(prog, bi, operand, depth=0, seen=None):
+    """block of an assignment on the def chain of `operand` that does not depend on a page's `offset` (None if all do)"""
+    from slicing import Slicer
+    sl = Slicer(prog)
+    seen = seen if seen is not None else set()
+    if operand.place is None or depth > 6:
+        return None
+    l = operand.place.local
+    if l in seen:
+        return None
+    seen.add(l)
+    defs = bi.defs.get(l, [])
+    if len(defs) >= 2:
+        for (db, di) in defs:
+            if di >= 0:
+                st = bi.stmt(db, di)
+                s = Slicer(prog)
+                sub = None
+                if st.rv.ops:
+                    sub = sl.of(bi.body.id, st.rv.ops[0])
+                elif st.rv.place is not None:
+                    sub = sl.of(bi.body.id, st.rv.place)
+                if sub is None or not any(f[1] == "offset" for f in sub.fields):
+                    return db
+            else:
+                t = bi.body.blocks[db].term
+                sub = Slicer(prog).of(bi.body.id, t.args[0]) if t.k == "call" and t.args else None
+                if sub is None or not any(f[1] == "offset" for f in sub.fields):
+                    return db
+        return None
+    for (db, di) in defs:
+        if di >= 0:
+            st = bi.stmt(db, di)
+            for op in st.rv.ops:
+                r = token_alternatives(prog, bi, op, depth + 1, seen)
+                if r is not None:
+                    return r
+        else:
+            t = bi.body.blocks[db].term
+            if t.k == "call":
+                for a in t.args[:1]:
+                    r = token_alternatives(prog, bi, a, depth + 1, seen)
+                    if r is not None:
+                        return r
+    return None
+
+
 @rule("C13", "R13.2", "the three listing pipelines are siblings: scope filter, sort, skip(offset), take(size), next page", floor=3)
 def r13_2(prog, out):
     A = prog.anchors
@@ -176,7 +259,10 @@ def r13_2(prog, out):
         b = bi.body
         missing = [s for s in ("sort", "skip", "take", "next_page") if s not in st]
         if missing:
-            out.violation("%s:stages" % name, prog.loc(bid), "listing pipeline lacks the stage(s) %s that its siblings have" % missing)
+            idx = [blk.idx for blk in b.blocks if not blk.cleanup and ((blk.term.k == "assert" and blk.term.j.get("msg") == "BoundsCheck")
+                                                                     or (blk.term.k == "call" and blk.term.callee is not None and blk.term.callee.path.startswith("std::ops::Index")))]
+            out.violation("%s:stages" % name, bi.loc(idx[0]) if idx else prog.loc(bid), "listing pipeline lacks the stage(s) %s that its siblings have%s" % (
+                missing, ": the page is cut by indexing, which panics (or overflows) for offsets beyond the list instead of yielding an empty page" if idx else ""))
             continue
         if "reorder" in st:
             out.violation("%s:order" % name, bi.loc(st["reorder"][0]), "the listing is passed through %s: pages are no longer in creation order" % st["reorder"][1])
@@ -248,10 +334,29 @@ def r13_2(prog, out):
         if not any(t.callee.path.endswith("Status::unimplemented") for bb, t in hi.calls()):
             n += 1
             key = "token-encoded:%s" % h.name
-            if enc:
-                out.holds(key, prog.loc(h.root), "next_page_token = PageToken(offset).encode() or empty")
-            else:
+            if not enc:
                 out.violation(key, prog.loc(h.root), "%s never returns a next page token" % h.name)
+                continue
+            # the token field of the response: every assignment feeding it derives from page.offset
+            tok = None
+            for (rb, rbb, ri, rrv) in prog.constructions_in(h.root):
+                if "next_page_token" in rrv.j.get("fields", []):
+                    tok = (rbb, rrv.ops[rrv.j["fields"].index("next_page_token")])
+            if tok is None:
+                out.undecided(key, prog.loc(h.root), "response construction not found")
+                continue
+            names = local_chain_to_offset(hi, tok[1])
+            gate = sorted(names & {"filter", "and_then", "take_if", "xor", "then", "then_some", "zip", "and", "or_else", "take", "filter_map"})
+            if gate:
+                out.violation(key, hi.loc(tok[0]), "between the page's offset and the next page token sits %s(): the token is withheld on a condition other than `the page "
+                              "is empty`, so a walk can stop before every resource was listed (e.g. a page capped below the requested size looks like the last page)" % gate[0])
+                continue
+            bad = token_alternatives(prog, hi, tok[1])
+            if bad:
+                out.violation(key, hi.loc(bad), "the next page token is dropped on a condition other than `the page is empty` (an assignment that does not derive from "
+                              "page.offset feeds it): a walk can stop before every resource was listed")
+            else:
+                out.holds(key, prog.loc(h.root), "next_page_token = PageToken(offset).encode() or empty, with no further condition")
     if n < 3:
         raise CheckBroken("expected 3 implemented list handlers, found %d" % n)
 
@@ -438,6 +543,20 @@ def r13_6(prog, out):
                     bad.append((cid, blk.idx, t.callee.path.split("::")[-1]))
                 if t.k == "assert" and t.j.get("msg") == "BoundsCheck":
                     bad.append((cid, blk.idx, "indexing"))
+        # arithmetic on the (client supplied) offset inside the pipeline itself
+        bi0 = prog.info(bid)
+        from slicing import Slicer
+        sl0 = Slicer(prog)
+        for blk in bi0.body.blocks:
+            if blk.cleanup:
+                continue
+            for st in blk.stmts:
+                if st.k == "assign" and st.rv.k == "bin" and st.rv.j["op"] in ("Add", "AddWithOverflow", "Mul", "MulWithOverflow", "Sub", "SubWithOverflow") and not st.exp:
+                    fs = set()
+                    for op in st.rv.ops:
+                        fs |= sl0.of(bid, op).fields
+                    if prog.anchors.cell("Paging", "offset") in fs:
+                        bad.append((bid, blk.idx, "arithmetic (%s) on the client-supplied offset" % st.rv.j["op"]))
         key = "no-panic:%s" % prog.short(bid)
         if bad:
             cid, bb, n = bad[0]
